@@ -1,9 +1,9 @@
 (* Extraction of the executable models (ExtrOcamlBasic directives only). *)
 Require Extraction.
 Require Import ExtrOcamlBasic.
-From DV Require Import Proc GenProc Blame Text Delta DeltaOrder DeltaColorOnly AnsiTerm ParseStyle Vte Align Tokenize Options LineNo WrapLine WrapFacts Trunc Numbers GrepSections Pager Superimpose Realign Pairing MergeConflict MergeConflictInst SbsStyles GenSbs Ingest Submodule Links.
+From DV Require Import Proc GenProc Blame Text Delta DeltaOrder DeltaColorOnly AnsiTerm ParseStyle Vte Align Tokenize Options LineNo WrapLine WrapFacts Trunc Numbers GrepSections Pager Superimpose Realign Pairing MergeConflict MergeConflictInst SbsStyles GenSbs Ingest Submodule Links BlameNumbers GenBlameNumbers Differ GenDiffer.
 Separate Extraction Proc.exec Proc.init Proc.results GenProc.code_params Proc.mkParams
   Blame.run Blame.init Blame.specb
   Delta.run Delta.steps Delta.number_from Delta.init Delta.out Delta.buf Delta.minus_lines Delta.plus_lines Delta.mkCfg Delta.rows_of DeltaOrder.sidesb DeltaColorOnly.safesb
   ParseStyle.parse ParseStyle.display AnsiTerm.ansi_strings AnsiTerm.decode AnsiTerm.plain Vte.strip Align.operations Tokenize.tokenize Tokenize.default_is_word
-  Options.resolve Options.gather LineNo.run_unified LineNo.run_sbs WrapLine.wrap_line WrapFacts.wrap_fuel Trunc.truncate_str Numbers.parse_hunk_numbers Numbers.parse_usize Numbers.bump Numbers.hunk_max GrepSections.make_style_sections Pager.select Pager.exit_status Superimpose.superimpose Superimpose.cells Realign.realign Pairing.line_alignment Pairing.close_of MergeConflictInst.code_run MergeConflictInst.code_classify MergeConflict.outp MergeConflict.md SbsStyles.adjust GenSbs.code_guard Ingest.ingest Submodule.sub_handle Submodule.sub_shown Links.file_url.
+  Options.resolve Options.gather LineNo.run_unified LineNo.run_sbs WrapLine.wrap_line WrapFacts.wrap_fuel Trunc.truncate_str Numbers.parse_hunk_numbers Numbers.parse_usize Numbers.bump Numbers.hunk_max GrepSections.make_style_sections Pager.select Pager.exit_status Superimpose.superimpose Superimpose.cells Realign.realign Pairing.line_alignment Pairing.close_of MergeConflictInst.code_run MergeConflictInst.code_classify MergeConflict.outp MergeConflict.md SbsStyles.adjust GenSbs.code_guard Ingest.ingest Submodule.sub_handle Submodule.sub_shown Links.file_url GenBlameNumbers.code_blank GenDiffer.code_use_git.
